@@ -28,6 +28,9 @@ while k < int(171.6 * 32):
 for n in range(1, 172): rows.append(rec("gamma", n, 1, gamma(mpf(n))))
 for n in range(1, 343, 2): rows.append(rec("gamma", n, 2, gamma(dy(n, 2))))
 for e in range(1, 40): rows.append(rec("gamma", 1, 2 ** e, gamma(dy(1, 2 ** e))))
+# small arguments with a full-length mantissa (x = 79454541 / 2^26 * 2^-s): exercise the rounding of x - 1
+for sh in range(1, 60, 2): rows.append(rec("gamma", 79454541, 2 ** 26, gamma(dy(79454541, 2 ** 26) / mpf(2) ** sh), s=sh))
+for sh in range(2, 40, 3): rows.append(rec("gamma", -79454541, 2 ** 26, gamma(-dy(79454541, 2 ** 26) / mpf(2) ** sh), s=sh))
 json.dump  # noqa
 with open(os.path.join(OUT, "gamma.ndjson"), "w") as f:
     for r in rows: f.write(json.dumps(r) + "\n")
